@@ -98,6 +98,17 @@ class World:
                     reqs.append(['disconnect', None])
                     live = []
             conns.append(reqs)
+        if not small and rng.random() < 0.25:
+            # contended scope: one connection leaves (disconnect / *IDN? / deactivate) a narrow scope which another one
+            # enters at the same time, while the parameters in it keep changing
+            scope = rng.choice(['m0', 'm1', 'm0:_x', 'm1:_y', 'm1:_z'])
+            inside = [pp for pp in params if self.covers(scope, *pp)]
+            conns = [[['activate', scope], [rng.choice(['disconnect', 'disconnect', 'idn', 'deactivate']), scope if False else None]],
+                     [['activate', scope]]] + conns[:1]
+            if conns[0][1][0] == 'deactivate':
+                conns[0][1][1] = scope
+            upd = [[[mn, p] for mn, p in (rng.choice(inside) for _ in range(rng.randint(3, 6)))] for _ in range(len(upd))]
+            return {'conns': conns, 'updaters': upd, 'shared': len(upd) > 1, 'contended': scope}
         return {'conns': conns, 'updaters': upd, 'shared': shared}
 
     # ---------------------------------------------------------------- one run
